@@ -225,7 +225,7 @@ theorem taproot_seckey_eq_bip341 (L : EcLaws E) (env : Env) (htag : ∀ t m, (en
           else some ⟨if E.yOdd (E.mulG s) then E.n - s else s, true, Generated.privDefaultNet⟩ :=
   tweakPriv_eq L env htag k hv h
 
--- GOAL (not proved): derive_eq_spec : the key and chain code of `derive k p` are `Spec.Bip32.derivePriv / derivePub` along `p` (follows from child_eq_ckd_* and derive_eq_fold by induction; the BIP32 vectors and every generated path are checked against the spec fold on each run)
+-- (the path-level statements — derive = the BIP32 fold with bookkeeping, neutering along non-hardened paths — are in Props/C09X.lean)
 
 /-! ### the defects that were repaired (theorems about the old code) -/
 
